@@ -487,3 +487,132 @@ func clip(s string) string {
 func init() {
 	register(&Scenario{Prop: "C06", Name: "c06/error-texts-as-data", Quick: []Bound{{0, 0}}, Thorough: []Bound{{1, 0}}, Body: c06DataTextsBody, MaxSteps: 200000, BudgetQ: 15, BudgetT: 100, MinHB: 1})
 }
+
+// errors raised by the server's body decoder - including io.EOF, which encoding/xml, encoding/gob
+// and encoding/binary return for an empty or short body - are errors of that one call like any
+// other: it completes with the decoder's text, NumCalls drops back, the next call works.  The
+// client side uses the BYTES codec, so the request body is exactly the text chosen.
+func c06DecoderErrors(x *X) {
+	cname := []string{"json", "xml"}[x.Choose(2)]
+	mk := map[string]func() rpc.Codec{"json": func() rpc.Codec { return rpc.NewJSONCodec() }, "xml": func() rpc.Codec { return &rpc.XMLCodec{} }}[cname]
+	bodies := map[string][]string{
+		"json": {``, `{"A":3,"B":4}`, `{"A":`, `nope`, ` `},
+		"xml":  {``, `<Req><A>3</A><B>4</B></Req>`, `<Req><A>3</A>`, `nope`, ` `},
+	}[cname]
+	bi := x.Choose(len(bodies))
+	mode := x.Choose(3)
+	so := srvOpts{bufSize: 64, codec: mk}
+	switch mode {
+	case 1:
+		so.pipelining = true
+	case 2:
+		so.directIO = true
+	}
+	w := newWorld()
+	calc := &Calc{}
+	srv := newServer(w, so)
+	srv.Register(calc)
+	cl, sv := NewPipe()
+	serveCodec(srv, sv, so)
+	conn := newConn(cl, "", 64, nil)
+	body := bodies[bi]
+	var ref Req
+	lerr := mk().Unmarshal([]byte(body), &ref)
+	args := []byte(body)
+	var reply []byte
+	var err error
+	ret := false
+	vs.GoNamed("caller", func() { err = conn.Call("Calc.Mul", &args, &reply); ret = true })
+	vs.Quiesce()
+	switch {
+	case !ret:
+		x.Fail("C06/failing-call-never-completes/decoder-error", "a call whose request body %q the server's %s decoder answers with %v never completed", body, cname, lerr)
+	case lerr != nil && err == nil:
+		x.Fail("C06/error-lost/decoder-error", "the server's %s decoder rejects the body %q (%v) and the call returned nil", cname, body, lerr)
+	case lerr != nil && err.Error() != lerr.Error():
+		x.Fail("C06/error-text/decoder-error", "the server's %s decoder rejects the body %q with %q; the call failed with %q", cname, body, lerr.Error(), err.Error())
+	case lerr == nil && err != nil:
+		x.Fail("C06/spurious-error/decoder-error", "the body %q decodes, the call failed with %v", body, err)
+	}
+	if n := conn.NumCalls(); ret && n != 0 {
+		x.Fail("C06/residue/decoder-error", "NumCalls is %d after the call", n)
+	}
+	after := []byte(bodies[1])
+	var areply []byte
+	aret := false
+	var aerr error
+	vs.GoNamed("caller2", func() { aerr = conn.Call("Calc.Mul", &after, &areply); aret = true })
+	vs.Quiesce()
+	if !aret || aerr != nil {
+		x.Fail("C06/neighbour-failed/decoder-error", "the call after it: returned=%v err=%v", aret, aerr)
+	}
+	x.Outcome("%s body=%d mode=%d lerr=%v err=%v", cname, bi, mode, lerr, err)
+	conn.Close()
+	vs.Quiesce()
+}
+
+func init() {
+	register(&Scenario{Prop: "C06", Name: "c06/decoder-errors", Quick: []Bound{{0, 0}}, Thorough: []Bound{{1, 0}}, Body: c06DecoderErrors, BudgetQ: 15, MinHB: 1})
+}
+
+// through a Transport: stream messages that the client's body codec cannot encode (the write
+// fails locally, the stream goes on), then a call that takes long on the same pooled connection
+// while the Transport's housekeeping runs (CloseIdleConnections, keep-alive retirement, idle
+// timeout): the failed writes are errors of those writes only - the call and the stream survive.
+func c06TransportStreamWriteErrors(x *X) {
+	nbad := 1 + x.Choose(3)
+	hk := x.Choose(3)
+	trSrvOpts.codec = rejectBytesCodec
+	defer func() { trSrvOpts.codec = nil }()
+	t := newTrSys(x, "C06", 1, 1)
+	t.openStream("a")
+	if len(t.streams) != 1 {
+		x.Fail("C06/open-failed/stream-write-errors", "NewStream through the Transport failed")
+		t.shutdown()
+		return
+	}
+	st := t.streams[0].st
+	for i := 0; i < nbad; i++ {
+		bad := []byte{0xEE, 0xEE, byte(i)}
+		st.WriteMessage(&bad)
+		vs.Quiesce()
+	}
+	if n := t.n.live["a"]; n != 1 {
+		x.Fail("C06/connection-lost/stream-write-errors", "%d connections are open after %d stream writes that could not be encoded", n, nbad)
+	}
+	t.longCall("a")
+	switch hk {
+	case 0:
+		t.tr.CloseIdleConnections()
+		vs.Quiesce()
+	case 1:
+		t.advance(tKeepAlive+tTick, ">keepalive")
+	case 2:
+		t.advance(tKeepAlive+tIdle+2*tTick, ">keepalive+idle")
+	}
+	// the stream still works
+	m := streamMsg(0x31, 0)
+	var r []byte
+	e1 := st.WriteMessage(&m)
+	var e2 error
+	rd := false
+	vs.GoNamed("streamcheck", func() { e2 = st.ReadMessage(nil, &r); rd = true })
+	vs.Quiesce()
+	if e1 != nil || !rd || e2 != nil || !eqBytes(r, transform(m)) {
+		x.Fail("C06/stream-poisoned/stream-write-errors", "after %d stream writes that could not be encoded and housekeeping %d the stream stopped working: write=%v read returned=%v err=%v", nbad, hk, e1, rd, e2)
+	}
+	t.release()
+	for _, l := range t.long {
+		if !l.c.ret || l.c.err != nil || !eqBytes(l.c.reply, l.c.want()) {
+			x.Fail("C06/other-call-failed/stream-write-errors", "a call in flight on the pooled connection while the Transport's housekeeping (%d) ran, after %d stream writes that could not be encoded: returned=%v err=%v", hk, nbad, l.c.ret, l.c.err)
+		}
+	}
+	x.Outcome("nbad=%d hk=%d", nbad, hk)
+	st.Close()
+	t.streams = nil
+	t.shutdown()
+}
+
+func init() {
+	register(&Scenario{Prop: "C06", Name: "c06/transport-stream-write-errors", Quick: []Bound{{0, 0}, {1, 0}}, Thorough: []Bound{{2, 0}}, Body: c06TransportStreamWriteErrors, MaxSteps: 200000, BudgetQ: 15})
+}
